@@ -115,7 +115,7 @@ func hashQ(q dns.Question) uint32 {
 }
 
 // answerFor builds the pipeline's answer sections for q.
-func answerFor(q dns.Question) (rcode int, an, ns, ex []dns.RR, ownOPT bool, mode string) {
+func answerFor(q dns.Question) (rcode int, an, ns, ex []dns.RR, ownOPT int, mode string) {
 	lname := strings.ToLower(q.Name)
 	labels := dns.SplitDomainName(lname)
 	h := hashQ(q)
@@ -137,16 +137,22 @@ func answerFor(q dns.Question) (rcode int, an, ns, ex []dns.RR, ownOPT bool, mod
 	if len(labels) > 0 {
 		switch {
 		case strings.HasPrefix(labels[0], "nowrite"):
-			return 0, nil, nil, nil, false, "nowrite"
+			return 0, nil, nil, nil, 0, "nowrite"
 		case strings.HasPrefix(labels[0], "err"):
-			return 0, nil, nil, nil, false, "err"
+			return 0, nil, nil, nil, 0, "err"
 		case strings.HasPrefix(labels[0], "badresp"):
-			return 0, nil, nil, nil, false, "errwrite"
+			return 0, nil, nil, nil, 0, "errwrite"
 		case len(labels) >= 3 && labels[len(labels)-2] == "size" && strings.HasPrefix(labels[0], "s"):
 			var size int
 			spec := labels[0][1:]
-			ownOPT = strings.HasSuffix(spec, "o")
-			spec = strings.TrimSuffix(spec, "o")
+			// "o": an OPT of the handler's own; "op": with a padding option in
+			// it when the client may be sent one.
+			if strings.HasSuffix(spec, "op") {
+				ownOPT = 2
+			} else if strings.HasSuffix(spec, "o") {
+				ownOPT = 1
+			}
+			spec = strings.TrimRight(spec, "op")
 			_, _ = fmt.Sscanf(spec, "%d", &size)
 			// Header 12 + question; each TXT RR costs name(2, compressed)+10+len+ceil(len/255).
 			remaining := size - 12 - (len(q.Name) + 1 + 4)
@@ -224,7 +230,11 @@ func answerFor(q dns.Question) (rcode int, an, ns, ex []dns.RR, ownOPT bool, mod
 		})
 	}
 
-	return rcode, an, ns, ex, h%5 == 0, "normal"
+	if h%5 == 0 {
+		ownOPT = 1
+	}
+
+	return rcode, an, ns, ex, ownOPT, "normal"
 }
 
 func (p *pipeline) ServeDNS(ctx context.Context, rw dnsserver.ResponseWriter, req *dns.Msg) (err error) {
@@ -271,9 +281,20 @@ func (p *pipeline) ServeDNS(ctx context.Context, rw dnsserver.ResponseWriter, re
 	resp.SetRcode(req, rcode)
 	resp.RecursionAvailable = true
 	resp.Answer, resp.Ns, resp.Extra = an, ns, ex
-	if ownOPT {
+	if ownOPT > 0 {
 		// A handler that brings an OPT of its own, with odd settings.
 		resp.SetEdns0(4096, true)
+	}
+	if ownOPT == 2 {
+		// With a padding option in it, as a forwarded response may have,
+		// when the client asked for padding on a transport that has it.
+		if reqOpt := req.IsEdns0(); reqOpt != nil && dnsserver.MustServerInfoFromContext(ctx).Proto.HasPaddingSupport() {
+			for _, o := range reqOpt.Option {
+				if _, ok := o.(*dns.EDNS0_PADDING); ok {
+					resp.IsEdns0().Option = append(resp.IsEdns0().Option, &dns.EDNS0_PADDING{Padding: make([]byte, hashQ(q)%3)})
+				}
+			}
+		}
 	}
 
 	if p.cloner != nil {
